@@ -2,5 +2,5 @@
 # MANIFEST.setup_cmd: offline; warms the overlay build cache from /repo's working tree and
 # checks that the tool chain the checks rely on is present. Nothing is fetched.
 cd "$(dirname "$0")" || exit 1
-/venv/bin/python -m vlib.build pure compiled || exit 1
+/venv/bin/python -m vlib.build pure compiled asan || exit 1
 /venv/bin/python -c "import numpy, scipy, lark, Cython; print('toolchain ok')" || exit 1
